@@ -228,6 +228,84 @@ func modeC13(cutsFile string, thorough bool) {
 		}
 	}
 	in3.close()
+	// a connection that is never idle but whose segments always end inside a frame, for longer than the
+	// listener's idle time-out: nothing is dropped
+	in4, err := newInst("c13-slow", instOpts{listeners: lsts, upstreams: map[string]string{"u1": "udp"}, rules: []ruleSpec{{Forward: "u1"}}, idleTimeout: 1})
+	if err != nil {
+		panic(err)
+	}
+	done4 := make(chan struct{}, 3)
+	for _, lst := range lsts {
+		go func(lst string) { runSlowStream(in4, lst, 22, 110*time.Millisecond); done4 <- struct{}{} }(lst)
+	}
+	for range lsts {
+		<-done4
+	}
+	in4.close()
 	_ = io.EOF
 	_ = dns.TypeA
+}
+
+// runSlowStream sends k queries as k+1 segments, one every `gap`, each segment ending in the middle of a frame.
+func runSlowStream(in *inst, lst string, k int, gap time.Duration) {
+	instMu.Lock()
+	connCtr++
+	conn := connCtr
+	instMu.Unlock()
+	var stream []byte
+	var ids []int
+	var names [][][]int
+	var mids []int
+	for i := 0; i < k; i++ {
+		q := mkq(fmt.Sprintf("%s.r0t60d0.fr.test.", uniq()))
+		q.id = uint16(5000 + conn*41 + i)
+		w := q.wire()
+		f := make([]byte, 2+len(w))
+		binary.BigEndian.PutUint16(f, uint16(len(w)))
+		copy(f[2:], w)
+		mids = append(mids, len(stream)+2+len(w)/2)
+		stream = append(stream, f...)
+		ids = append(ids, int(q.id))
+		names = append(names, labelsJS(q.name))
+	}
+	c, err := streamConn(in, lst)
+	if err != nil {
+		in.tr.Emit("c13.err", "conn", conn, "err", err.Error())
+		return
+	}
+	defer c.Close()
+	in.tr.Emit("c13.conn", "conn", conn, "lst", lst, "ids", ids, "names", names, "limit", 100, "mode", "slow", "ncuts", k)
+	done := make(chan []byte, 1)
+	go func() {
+		var got []byte
+		buf := make([]byte, 65536)
+		for {
+			c.SetReadDeadline(time.Now().Add(time.Duration(k+20) * gap))
+			n, err := c.Read(buf)
+			got = append(got, buf[:n]...)
+			frames := 0
+			for o := 0; o+2 <= len(got); {
+				l := int(binary.BigEndian.Uint16(got[o:]))
+				if o+2+l > len(got) {
+					break
+				}
+				o += 2 + l
+				frames++
+			}
+			if err != nil || frames >= k {
+				break
+			}
+		}
+		done <- got
+	}()
+	prev := 0
+	for _, m := range append(mids, len(stream)) {
+		if _, err := c.Write(stream[prev:m]); err != nil {
+			break
+		}
+		prev = m
+		time.Sleep(gap)
+	}
+	got := <-done
+	in.tr.Emit("c13.ret", "conn", conn, "bytes", vtrace.Bytes(got))
 }
